@@ -413,6 +413,184 @@ impl DecNew for Decimal {
 }
 
 // ---------------------------------------------------------------------------------------------
+// live deposits with a slippage tolerance (constant-product pair)
+// ---------------------------------------------------------------------------------------------
+
+#[derive(Clone, Debug, Serialize, Deserialize)]
+pub struct LiveDeposit {
+    pub user: u8,
+    /// amount of the pool's second asset
+    pub d1: Uint128,
+    pub tolerance_atomics: Option<Uint128>,
+    /// amount of the pool's first asset: the exact threshold of the ratio test plus `off`, or `far`
+    pub off: i8,
+    pub far: Option<Uint128>,
+    /// list the assets in the message in the opposite order to the pool's own
+    pub reversed: bool,
+}
+
+#[derive(Clone, Debug, Serialize, Deserialize)]
+pub struct LiveDepositCase {
+    pub cw20: [bool; 2],
+    pub fees: [Uint128; 3],
+    pub init: (Uint128, Uint128),
+    /// an optional swap (direction, k/65536 of the offer reserve) before the deposits, so that the
+    /// pool ratio is not the initial one and protocol fees are pending
+    pub swap_first: Option<(bool, u16)>,
+    pub deposits: Vec<LiveDeposit>,
+}
+
+pub struct LiveDepositSlippage;
+
+impl Check for LiveDepositSlippage {
+    type Case = LiveDepositCase;
+    fn name(&self) -> &'static str {
+        "live_deposit_slippage_tolerance"
+    }
+    fn rule(&self) -> &'static str {
+        "constant-product pair (native/cw20 kinds) created through the factory with an initial deposit at a ratio up to 2^20 : 1 either way and an optional swap first; then 1..6 ProvideLiquidity messages with a slippage tolerance in {None, 0, 1e-18, 1%, 50%, 1 - 1e-18, 1, 1 + 1e-18, random}, the first asset's amount placed on / one or two units around the exact threshold of the documented ratio test (deposit ratio x (1 - t) <= pool ratio, both ways round) or far from it, the assets listed in the message in the pool's order or in the opposite order. Reference verdict from the reported reserves in exact rationals (three-way, 18-decimal band): a deposit beyond the tolerance must not succeed, a deposit within it must not be rejected with the slippage error, no tolerance never fails for slippage, a tolerance > 1 is rejected. Non-trivial: a forced verdict (MustAccept or MustReject) was exercised with the assets listed in the opposite order on a pool that is not 1:1."
+    }
+    fn strategy(&self, _tier: Tier) -> BoxedStrategy<LiveDepositCase> {
+        let tol = prop_oneof![
+            1 => Just(None),
+            1 => Just(Some(0u128)),
+            1 => Just(Some(1u128)),
+            3 => Just(Some(DEFAULT)),
+            2 => Just(Some(HALF)),
+            1 => Just(Some(E18 - 1)),
+            1 => Just(Some(E18)),
+            1 => Just(Some(E18 + 1)),
+            4 => (0u128..E18).prop_map(Some),
+        ];
+        let dep = (
+            0u8..4,
+            gen::log_uniform(1, 1u128 << 60),
+            tol,
+            -2i8..=2,
+            proptest::option::weighted(0.3, gen::log_uniform(1, 1u128 << 70)),
+            any::<bool>(),
+        )
+            .prop_map(|(user, d1, t, off, far, reversed)| LiveDeposit {
+                user,
+                d1: Uint128::new(d1),
+                tolerance_atomics: t.map(Uint128::new),
+                off,
+                far: far.map(Uint128::new),
+                reversed,
+            });
+        (
+            any::<[bool; 2]>(),
+            gen::small_fee_triple(),
+            gen::log_uniform(100_000, 1u128 << 60),
+            0u32..21,
+            any::<bool>(),
+            proptest::option::weighted(0.5, (any::<bool>(), 1u16..20000)),
+            prop::collection::vec(dep, 1..6),
+        )
+            .prop_map(|(cw20, f, base, sh, flip, swap_first, deposits)| {
+                let other = (base >> sh).max(1000);
+                LiveDepositCase {
+                    cw20,
+                    fees: [Uint128::new(f[0]), Uint128::new(f[1]), Uint128::new(f[2])],
+                    init: if flip { (Uint128::new(other), Uint128::new(base)) } else { (Uint128::new(base), Uint128::new(other)) },
+                    swap_first,
+                    deposits,
+                }
+            })
+            .boxed()
+    }
+    fn cases(&self, tier: Tier) -> u32 {
+        tier.pick(10_000, 800_000)
+    }
+    fn min_nontrivial(&self) -> f64 {
+        0.05
+    }
+    fn test(&self, c: &LiveDepositCase, rec: &Rec) -> TResult {
+        let cfg = PairCfg { cw20: c.cw20, decimals: [6, 6], fees: c.fees, amp: None };
+        let mut pw = PairWorld::build(&cfg).map_err(|e| Fail::new(format!("world build failed: {e}")))?;
+        let u0 = pw.user(0);
+        if pw.provide(&u0, [c.init.0.u128(), c.init.1.u128()], None, None).is_err() {
+            rec.class("init_rejected");
+            return Ok(());
+        }
+        if let Some((dir, k)) = c.swap_first {
+            let v = pw.view().map_err(Fail::new)?;
+            let oi = if dir { 1 } else { 0 };
+            let u1 = pw.user(1);
+            let _ = pw.swap(&u1, oi, gen::frac(k, v.reserves[oi]).max(1), None, Some(dec(HALF)), None);
+        }
+        for (step, d) in c.deposits.iter().enumerate() {
+            let v = pw.view().map_err(|e| Fail::new(format!("Pool query failed: {e}")))?;
+            let p = [v.reserves[0], v.reserves[1]];
+            if p[0] == 0 || p[1] == 0 {
+                break;
+            }
+            let t = d.tolerance_atomics.map(|t| t.u128());
+            let tt = t.unwrap_or(0).min(E18);
+            let d1 = d.d1.u128();
+            let d0 = match d.far {
+                Some(f) => f.u128(),
+                None if tt < E18 => {
+                    let star = u(p[0]) * u(d1) * u(E18) / (u(p[1]) * (u(E18) - u(tt)));
+                    (to_u128(star.min(u(1u128 << 100))).unwrap() as i128 + d.off as i128).max(1) as u128
+                }
+                None => (u(p[0]) * u(d1) / u(p[1])).min(u(1u128 << 100)).try_into().map(|x: u128| x.max(1)).unwrap_or(1),
+            };
+            let usr = pw.user(d.user);
+            pw.grant(&usr, [d0, d1]);
+            pw.reversed_msgs = d.reversed;
+            let r = pw.provide_exec(&usr, [d0, d1], t.map(Decimal::new_from_u128_atomics), None);
+            pw.reversed_msgs = false;
+            let slippage_err = r.as_ref().err().map(|e| e.contains("lippage")).unwrap_or(false);
+            let one_to_one = p[0] == p[1];
+            let Some(t) = t else {
+                ensure!(!slippage_err, "step {step}: a deposit without a slippage tolerance was rejected for slippage (deposit [{d0}, {d1}], reserves {p:?})");
+                rec.class("no_tolerance");
+                continue;
+            };
+            if t > E18 {
+                ensure!(r.is_err(), "step {step}: a deposit with slippage tolerance {t} > 1 was accepted");
+                rec.class("tolerance_above_one_rejected");
+                continue;
+            }
+            let v1 = ratio_verdict(u(d0), u(d1), u(p[0]), u(p[1]), t);
+            let v2 = ratio_verdict(u(d1), u(d0), u(p[1]), u(p[0]), t);
+            let verdict = if v1 == Verdict::MustReject || v2 == Verdict::MustReject {
+                Verdict::MustReject
+            } else if v1 == Verdict::MustAccept && v2 == Verdict::MustAccept {
+                Verdict::MustAccept
+            } else {
+                Verdict::Either
+            };
+            if verdict != Verdict::Either && d.reversed && !one_to_one {
+                rec.nontrivial(hash_of(&(c, step)));
+                rec.sample(c);
+            }
+            match verdict {
+                Verdict::MustAccept => {
+                    rec.class(if d.reversed { "must_accept_reversed_order" } else { "must_accept_pool_order" });
+                    ensure!(
+                        !slippage_err,
+                        "step {step}: deposit [{d0}, {d1}] into reserves {p:?} is within the slippage tolerance {t} but was rejected for slippage (assets listed in {} order)",
+                        if d.reversed { "the opposite" } else { "the pool's" }
+                    );
+                }
+                Verdict::MustReject => {
+                    rec.class(if d.reversed { "must_reject_reversed_order" } else { "must_reject_pool_order" });
+                    ensure!(
+                        r.is_err(),
+                        "step {step}: deposit [{d0}, {d1}] into reserves {p:?} is beyond the slippage tolerance {t} but succeeded (assets listed in {} order)",
+                        if d.reversed { "the opposite" } else { "the pool's" }
+                    );
+                }
+                Verdict::Either => rec.class("inside_granularity_band"),
+            }
+        }
+        Ok(())
+    }
+}
+
+// ---------------------------------------------------------------------------------------------
 // live swaps with spread limits
 // ---------------------------------------------------------------------------------------------
 
@@ -709,6 +887,7 @@ pub fn property() -> Property {
             Box::new(MaxSpreadPure),
             Box::new(DepositSlippagePure),
             Box::new(LiveSpread),
+            Box::new(LiveDepositSlippage),
             Box::new(RouterMinimumReceive),
         ],
         assumptions: vec![
